@@ -449,7 +449,10 @@ def call_builtin_method(ip, bm, args, kwargs):
         raise Unsupported(f"set.{name}")
     zo = recv.t
     if name in ("keys", "values", "items", "get", "pop", "setdefault", "update"):
-        ip.guard([("AttributeError", z3.Not(V.is_dict(zo)))])
+        # the type object `dict` itself has these attributes: calling one without an instance is a TypeError, not an
+        # AttributeError (CPython cross-check, pyvc/crosscheck.py)
+        is_dict_type = z3.And(V.is_type(zo), V.Val.tid(zo) == V.T_DICT)
+        ip.guard([("TypeError", is_dict_type), ("AttributeError", z3.And(z3.Not(V.is_dict(zo)), z3.Not(is_dict_type)))])
         if name == "keys":
             return ZSeq(V.Val.dkeys(zo), "keys")
         if name == "values":
